@@ -175,6 +175,19 @@ def rRewritten : Nat := 9
 def rRewrittenAutoHosts : Nat := 10
 def rRewrittenRule : Nat := 11
 
+/-- `filtering.Reason.String()` of the numbers above (tied to the package on
+every run by the `C07.consts` line). -/
+def reasonNames : List (Nat × String) :=
+  [(rNotFound, "NotFilteredNotFound"), (rAllowList, "NotFilteredWhiteList"), (rError, "NotFilteredError"),
+   (rBlockList, "FilteredBlackList"), (rSafeBrowsing, "FilteredSafeBrowsing"), (rParental, "FilteredParental"),
+   (rInvalid, "FilteredInvalid"), (rSafeSearch, "FilteredSafeSearch"), (rBlockedService, "FilteredBlockedService"),
+   (rRewritten, "Rewrite"), (rRewrittenAutoHosts, "RewriteEtcHosts"), (rRewrittenRule, "RewriteRule")]
+
+/-- `queryLogFileName`, `maxEntrySize`, `bufferSize` (qlog.go, qlogfile.go). -/
+def logFileName : String := "querylog.json"
+def maxEntrySize : Nat := 16 * 1024
+def readBufferSize : Nat := 100 * maxEntrySize
+
 /-- `filteringStatusValues`. -/
 inductive Status where
   | all | filtered | blocked | blockedService | blockedSafebrowsing | blockedParental
